@@ -34,7 +34,7 @@ func (c13) Rule() string {
 		"Its concurrent phase runs FIRST (cold start: lazily filled caches - structProperties, jsonNames - are filled under contention) with k in {2,4,8,16} goroutines released from a barrier, all at once: " +
 		"W1 Validate on one shared Resolved (pattern, patternProperties, required, $dynamicRef chains through a loaded document, unevaluated*, uniqueItems, draft-07), W2 ApplyDefaults on per-goroutine instances incl. pointer-to-struct instances (the only path into the struct field cache), " +
 		"W3 For/ForType on the same types with one shared ForOptions.TypeSchemas, W4 Marshal + CloneSchemas + Resolve (loader handing out a freshly unmarshaled document per call) + Validate on one shared Schema tree simultaneously, W5 Unmarshal storms. " +
-		"The hook injects seeded Gosched/microsleeps at validate entries and inside the two check-then-act cache windows. Afterwards the same calls run sequentially and every concurrent result (verdict, marshaled bytes, inferred schema bytes, clone bytes) must equal the sequential one. " +
+		"Half of the processes are INSTRUMENTED (the hook injects seeded Gosched/microsleeps at validate entries and inside the two check-then-act cache windows and counts overlap); the other half are CLEAN: the hook is removed and the harness touches no shared memory between barrier and join, because every atomic counter of a monitor is a happens-before edge that hides races from the detector. Afterwards the same calls run sequentially and every concurrent result (verdict, marshaled bytes, inferred schema bytes, clone bytes) must equal the sequential one. " +
 		"Evidence: max goroutines simultaneously inside Validate, cache-miss window entries, yields injected, calls compared, race-report blocks. Non-trivial: a case whose overlap inside the library was >= 2; distinct by (workload mix, k, seed)."
 }
 func (c13) Assumptions() []string {
@@ -92,8 +92,16 @@ const c13D7 = `{"$schema":"http://json-schema.org/draft-07/schema#","definitions
 func (c13) Run(c *fw.Case) {
 	r := c.R
 	fw.DisableStepBudget()
-	k := []int{2, 4, 8, 16}[c.Idx%4]
-	mix := c.Idx / 4 % 4 // which workloads dominate
+	// Two kinds of processes. INSTRUMENTED (even cases): the hook counts overlap, injects yields and widens the cache
+	// windows - but its atomic counters are synchronisation, and the race detector treats them as happens-before edges
+	// between the goroutines, which HIDES races in the library. CLEAN (odd cases): the hook is removed altogether and
+	// the harness touches no shared memory between the barrier and the join, so the race detector sees the library's
+	// own synchronisation only.
+	clean := c.Idx%2 == 1
+	fw.SetHookEnabled(!clean)
+	defer fw.SetHookEnabled(true)
+	k := []int{2, 4, 8, 16}[(c.Idx/2)%4]
+	mix := c.Idx / 8 % 4 // which workloads dominate
 	// --- shared inputs (built single-threaded; Resolve itself is exercised concurrently in W4) ---
 	var rootS, d7S jsonschema.Schema
 	if err := json.Unmarshal([]byte(c13Root), &rootS); err != nil {
@@ -157,6 +165,9 @@ func (c13) Run(c *fw.Case) {
 		}
 	}
 	verdict := func(rs *jsonschema.Resolved, inst any) func() string {
+		if clean {
+			return func() string { return fmt.Sprint(rs.Validate(inst) == nil) }
+		}
 		return func() string {
 			enter()
 			err := rs.Validate(inst)
@@ -255,40 +266,40 @@ func (c13) Run(c *fw.Case) {
 	var yields, missWindows, hookEvents atomic.Int64
 	hseed := uint64(c.Idx)*7919 + c.Seed
 	var hcount atomic.Uint64
-	fw.SetExtraHook(func(point string) {
-		n := hcount.Add(1)
-		hookEvents.Add(1)
-		x := (n*0x9E3779B97F4A7C15 + hseed) >> 59 // 5 pseudo-random bits
-		if strings.HasPrefix(point, "cache-miss") {
-			missWindows.Add(1)
-			time.Sleep(200 * time.Microsecond) // widen the check-then-act window
-			return
-		}
-		switch {
-		case x == 0:
-			time.Sleep(time.Duration(1+n%50) * time.Microsecond)
-			yields.Add(1)
-		case x < 6:
-			runtime.Gosched()
-			yields.Add(1)
-		}
-	})
+	if !clean {
+		fw.SetExtraHook(func(point string) {
+			n := hcount.Add(1)
+			hookEvents.Add(1)
+			x := (n*0x9E3779B97F4A7C15 + hseed) >> 59 // 5 pseudo-random bits
+			if strings.HasPrefix(point, "cache-miss") {
+				missWindows.Add(1)
+				time.Sleep(200 * time.Microsecond) // widen the check-then-act window
+				return
+			}
+			switch {
+			case x == 0:
+				time.Sleep(time.Duration(1+n%50) * time.Microsecond)
+				yields.Add(1)
+			case x < 6:
+				runtime.Gosched()
+				yields.Add(1)
+			}
+		})
+	}
 	defer fw.SetExtraHook(nil)
 
 	// --- concurrent phase (first: cold caches) ---
 	conc := make([]string, len(calls))
 	var wg sync.WaitGroup
 	start := make(chan struct{})
-	var panics atomic.Int64
-	var panicMsg atomic.Value
+	panicMsgs := make([]string, k) // one slot per goroutine: no shared memory
 	for g := 0; g < k; g++ {
 		wg.Add(1)
 		go func(g int) {
 			defer wg.Done()
 			defer func() {
 				if rec := recover(); rec != nil {
-					panics.Add(1)
-					panicMsg.Store(fmt.Sprint(rec))
+					panicMsgs[g] = fmt.Sprint(rec)
 				}
 			}()
 			<-start
@@ -300,9 +311,11 @@ func (c13) Run(c *fw.Case) {
 	close(start)
 	wg.Wait()
 	fw.SetExtraHook(nil)
-	if panics.Load() > 0 {
-		c.Violation("a concurrent call panicked: "+fmt.Sprint(panicMsg.Load()), map[string]any{"goroutines": k})
-		return
+	for _, pm := range panicMsgs {
+		if pm != "" {
+			c.Violation("a concurrent call panicked: "+pm, map[string]any{"goroutines": k})
+			return
+		}
 	}
 	// --- sequential baseline ---
 	mismatches := 0
@@ -321,12 +334,15 @@ func (c13) Run(c *fw.Case) {
 	c.Count("yields_injected", int(yields.Load()))
 	c.Count("cache_miss_window_entries", int(missWindows.Load()))
 	c.Count(fmt.Sprintf("max_inside_validate=%d", maxInside.Load()), 1)
-	if maxInside.Load() >= 2 {
+	if clean {
+		c.Count("clean_processes(no harness synchronisation)", 1)
+		c.Nontrivial(fmt.Sprintf("clean|k%d|mix%d|seed%d|case%d", k, mix, c.Seed, c.Idx))
+	} else if maxInside.Load() >= 2 {
 		c.Nontrivial(fmt.Sprintf("k%d|mix%d|seed%d|case%d", k, mix, c.Seed, c.Idx))
 	} else {
 		c.Inconclusive("overlap inside Validate never reached 2 in this process")
 	}
-	c.Sample(map[string]any{"goroutines": k, "mix": mix, "calls": len(calls), "max_goroutines_inside_Validate": maxInside.Load(), "cache_miss_window_entries": missWindows.Load(), "yields_injected": yields.Load()})
+	c.Sample(map[string]any{"goroutines": k, "mix": mix, "clean": clean, "calls": len(calls), "max_goroutines_inside_Validate": maxInside.Load(), "cache_miss_window_entries": missWindows.Load(), "yields_injected": yields.Load()})
 	_ = rand.Int
 }
 
